@@ -571,8 +571,36 @@ func ruleStride(c *eng.Ctx) {
 
 // paramSyms names the integer parameters fetched with getIntParam by their key.
 func paramSyms(fn *ssa.Function) func(ssa.Value) (*eng.Poly, bool) {
+	return paramSymsDepth(fn, 0)
+}
+
+func paramSymsDepth(fn *ssa.Function, depth int) func(ssa.Value) (*eng.Poly, bool) {
 	loopVars := map[*ssa.Phi]string{}
 	return func(v ssa.Value) (*eng.Poly, bool) {
+		// a value returned by a geometry helper of the package (cols, colors, rowSize, err := geometry(…)):
+		// the polynomial every successful return of the helper gives for that result
+		if ex, ok := v.(*ssa.Extract); ok && depth < 2 {
+			if call, ok := ex.Tuple.(*ssa.Call); ok {
+				if h := call.Call.StaticCallee(); h != nil && h.Blocks != nil && eng.InModule(h) && h.Name() != "getIntParam" {
+					var poly *eng.Poly
+					for _, r := range eng.Returns(h) {
+						if n := len(r.Results); n > 0 {
+							if _, isErr := r.Results[n-1].Type().Underlying().(*types.Interface); isErr && !eng.IsNilConst(r.Results[n-1]) {
+								continue // an error return: the caller does not use the other results
+							}
+						}
+						p, ok := eng.IntPoly(r.Results[ex.Index], paramSymsDepth(h, depth+1))
+						if !ok || (poly != nil && !poly.Equal(p)) {
+							return nil, false
+						}
+						poly = p
+					}
+					if poly != nil {
+						return poly, true
+					}
+				}
+			}
+		}
 		if call, ok := v.(*ssa.Call); ok {
 			if f := call.Call.StaticCallee(); f != nil && f.Name() == "getIntParam" && len(call.Call.Args) == 3 {
 				if s, ok := eng.ConstString(call.Call.Args[1]); ok {
